@@ -23,6 +23,29 @@ CLAIMS = {
                 "these rules are listed as known findings (F1b, F1c, F3); F1a was repaired in /repo.",
         "technique": "static analysis: path-sensitive typestate (lease automaton) by big-step abstract interpretation of the AST with exceptional outcomes, @contextmanager inlining, relevance slicing",
     },
+    "C02": {
+        "text": ("Decides the ownership / lock discipline that makes concurrent use safe, for all paths: the lease automaton of C01 (no "
+                 "lost or duplicated slot, no double give, no use after give, never both queued and owned by a response, block=True never "
+                 "connects without a slot); request-path methods write no shared pool state except debug counters and only __init__/close "
+                 "write the queue field; a leased connection never escapes into self.*, a container or a closure; every dereference of the "
+                 "queue field tolerates a concurrent close() (try/except AttributeError or None-tested snapshot); close() swaps the queue out "
+                 "before draining the detached object; the finalizer does not capture the pool; the HTTP/2 probe lock is released exactly "
+                 "once on every path out of HTTPSConnection.connect; lock regions hold no blocking pool operation or foreign lock; the "
+                 "scheduler is a queue.Queue subclass, takes block iff self.block, puts never block. "
+                 "Declined: fairness/eventual completion under all schedules (queue.LifoQueue is trusted), real-time bounds."),
+        "note": _TRUST + "Linearizability of the queue itself is the stdlib's; the check shows nothing else is shared. F1b is a known finding; F2 was repaired.",
+        "technique": "static analysis: lease typestate by abstract interpretation + write-set/escape/lockset queries over the AST",
+    },
+    "C03": {
+        "text": ("Decides the structure that keeps exchanges apart on pooled connections: every connection taken from the queue is probed "
+                 "and a dropped one closed before reuse (all paths of _get_conn); 'dropped' is exactly socket-gone or readable-now with a "
+                 "zero-timeout probe (decision table); a live connection re-enters the queue only after a clean exchange (shared lease "
+                 "rule); only _put_conn feeds the queue and only urlopen's finally and release_conn call it; internal release happens only "
+                 "once the stdlib response is closed; http.client protocol-state errors take the discard path; HEAD/1xx/204/304 get length 0. "
+                 "Declined: byte-level pairing of request and response."),
+        "note": _TRUST + "http.client's own request/response state machine is trusted for bytes arriving after checkout.",
+        "technique": "static analysis: path-sensitive typestate + decision-table extraction by abstract interpretation, who-may-call queries",
+    },
     "C18": {
         "text": ("Decides the structural clauses of C18 for all keywords and all call paths: every keyword accepted by the pool and "
                  "connection constructors is a PoolKey field, pool-injected, or rejected by the unfiltered key_class(**context); the very "
@@ -38,4 +61,4 @@ CLAIMS = {
 _PENDING = "check not built yet in this session (static rules designed in DESIGN.md section 5); will be claimed once its rules run clean"
 
 NOT_APPLICABLE = {pid: _PENDING for pid in
-                  ["C02", "C03", "C04", "C05", "C06", "C07", "C08", "C09", "C10", "C11", "C12", "C13", "C14", "C15", "C16", "C17", "C19", "C20"]}
+                  ["C04", "C05", "C06", "C07", "C08", "C09", "C10", "C11", "C12", "C13", "C14", "C15", "C16", "C17", "C19", "C20"]}
